@@ -119,20 +119,26 @@ impl QFiles {
     }
 }
 
-/// Builds a file for a query check; a file that cannot be written/decoded is a violation of the
-/// calling property only insofar as queries cannot run (reported once).
+/// Builds a file for a read-side check. These properties quantify over *valid files*: a file the
+/// writer cannot produce, or that the independent decoder does not accept as conforming and
+/// holding the inserted entries, is a C01/C09 matter — it is counted as a failed prerequisite and
+/// skipped, never reported as a violation of the calling property.
 pub fn build_or_report(prop: &str, spec: &FileSpec, acc: &mut Acc) -> Option<(Model, Vec<u8>, usize)> {
+    let _ = prop;
     match build_file(spec) {
         Ok((entries, bytes)) => {
+            match vlib::fmt::decode_file(&bytes, Some(spec.cfg.effective_interval())) {
+                Ok(l) if l.entries == entries => {}
+                _ => {
+                    acc.count("prerequisite_failed_file_not_valid_(C01/C09)", 1);
+                    return None;
+                }
+            }
             let blocks = count_blocks(&bytes);
             Some((Model::new(entries), bytes, blocks))
         }
-        Err(e) => {
-            acc.violation(Violation {
-                signature: format!("write;{}", serde_json::to_string(spec).unwrap()),
-                summary: format!("{prop}: cannot write the file {}: {e}", serde_json::to_string(spec).unwrap()),
-                case: json!({"kind": "query", "file": spec, "query": Query::Scan{rev: false, mode: crate::query::CursorMode::Fresh}}),
-            });
+        Err(_) => {
+            acc.count("prerequisite_failed_writer_error_(C01)", 1);
             None
         }
     }
